@@ -228,6 +228,9 @@ def by_name(objs):
     return out
 
 
+LENIENT = [False]      # classification aid only: signal comments count as equal when one of them is missing
+
+
 def signal_agree(bits, s1, s2):
     ok = (s1.start_bit == s2.start_bit and s1.size == s2.size and bool(s1.is_little_endian) == bool(s2.is_little_endian)
           and bool(s1.is_signed) == bool(s2.is_signed) and feq(s1.factor, s2.factor) and feq(s1.offset, s2.offset)
@@ -236,7 +239,7 @@ def signal_agree(bits, s1, s2):
           and {r.strip() for r in s1.receivers} == {r.strip() for r in s2.receivers})
     if not bits[3]:
         ok = ok and dict(s1.values) == dict(s2.values)
-    if not bits[0]:
+    if not bits[0] and not (LENIENT[0] and (s1.comment is None or s2.comment is None)):
         ok = ok and ctext(s1.comment) == ctext(s2.comment)
     if not bits[1]:
         ok = ok and dict(s1.attributes) == dict(s2.attributes)
@@ -280,6 +283,23 @@ def agree_py(bits, a, b):
     return bool(ok)
 
 
+def failure_class(default, res, bits, a, b, missed):
+    """name the failure class of a wrong verdict (the two classes repaired by fixes/C13_*.patch get their own key)"""
+    if missed:
+        LENIENT[0] = True
+        try:
+            if agree_py(bits, a, b):
+                return "signal-comment-presence"
+        finally:
+            LENIENT[0] = False
+        return default
+    leaves = [n for n, _ in nodes(res) if n.result != "equal" and not n.children]
+    if leaves and all(isinstance(n.type, str) and n.type.startswith("receiver ") and
+                      n.type[len("receiver "):] != n.type[len("receiver "):].strip() for n in leaves):
+        return "self-compare-blank-receiver"
+    return default
+
+
 def arbkey(f):
     return (f.arbitration_id.id, bool(f.arbitration_id.extended))
 
@@ -319,6 +339,7 @@ class Gen:
     def __init__(self, C, rng):
         self.C = C
         self.rng = rng
+        self.blanks = False
 
     def num(self, avoid=None):
         r = self.rng
@@ -348,7 +369,7 @@ class Gen:
         s = C.Signal(name, **kw)
         if r.random() < 0.6:
             s.add_comment(self.text())
-        for e in r.sample(RECV, r.randrange(0, 3)):
+        for e in r.sample(RECV if self.blanks else ECUS, r.randrange(0, 3)):
             if e.strip() not in [x.strip() for x in s.receivers]:
                 s.add_receiver(e)
         for k in r.sample(range(-1, 6), r.randrange(0, 4)):
@@ -377,6 +398,7 @@ class Gen:
 
     def matrix(self, frame_idx=None):
         r, C = self.rng, self.C
+        self.blanks = r.random() < 0.15
         db = C.CanMatrix()
         for name in r.sample(ECUS, r.randrange(1, 5)):
             e = C.Ecu(name)
@@ -918,7 +940,8 @@ def run(chk):
             if silent(res) != exp:
                 what = ("compare_db reports a difference although the matrices agree on every compared property" if exp else
                         "compare_db reports nothing although the matrices differ in a compared property")
-                chk.violation("iff-" + tag + ("-false-alarm" if exp else "-missed"), what, describe(a, b, bits), exp,
+                chk.violation(failure_class("iff-" + tag + ("-false-alarm" if exp else "-missed"), res, bits, a, b, not exp),
+                              what, describe(a, b, bits), exp,
                               dict(silent=silent(res), report=brief_tree(res)))
             if (res.result is None) != silent(res):
                 chk.violation("root-result", "root result is not None exactly when nothing is reported", describe(a, b, bits))
@@ -966,7 +989,8 @@ def run(chk):
         check_iff(a, b, "copy", all_bits=True, tie_n=2)
         res, _, _, _ = compare(a, a, (0, 0, 0, 0))
         if res is None or not silent(res):
-            chk.violation("self-compare", "a matrix compared with itself reports a difference", describe(a, a, (0, 0, 0, 0)))
+            chk.violation(failure_class("self-compare", res, (0, 0, 0, 0), a, a, False) if res is not None else "self-compare",
+                          "a matrix compared with itself reports a difference", describe(a, a, (0, 0, 0, 0)))
         sh = copy.deepcopy(a)
         gen.shuffle(sh)
         check_iff(a, sh, "reordered", all_bits=True, tie_n=2)
@@ -997,7 +1021,7 @@ def run(chk):
                 key = e.get("key")
                 if ignored:
                     if not silent(res):
-                        chk.violation(key or "ignored-edit-reported", "an edit of an ignored category is reported: " + e["what"], inp,
+                        chk.violation(key or failure_class("ignored-edit-reported", res, bits, a, b, False), "an edit of an ignored category is reported: " + e["what"], inp,
                                       "nothing", brief_tree(res))
                 else:
                     hits, stray = [], []
@@ -1014,7 +1038,9 @@ def run(chk):
                         chk.violation(key or "edit-not-reported", "a single edit is not reported at the object concerned with the right "
                                       "kind: " + e["what"], inp, dict(chain=e["chain"], kinds=e["kinds"], under=e.get("anc")), brief_tree(res))
                     elif stray:
-                        chk.violation(key or "edit-collateral", "a single edit produces reports elsewhere or of another kind: " + e["what"],
+                        blank = all(t.startswith("receiver ") and t[9:] != t[9:].strip() for _, t, _ in stray)
+                        chk.violation("self-compare-blank-receiver" if blank else (key or "edit-collateral"),
+                                      "a single edit produces reports elsewhere or of another kind: " + e["what"],
                                       inp, dict(chain=e["chain"], kinds=e["kinds"]), stray[:6])
                     if agree_py(bits, a, b):
                         chk.violation("oracle", "harness: catalogue edit left the pair in agreement", inp)
